@@ -1,6 +1,9 @@
 package schema
 
-import "regexp"
+import (
+	"fmt"
+	"regexp"
+)
 
 var unitsProperty = NewPropertySchema(
 	NewRefSchema("Units", nil),
@@ -1312,16 +1315,35 @@ func DescribeSchema() *ScopeSchema {
 	return schemaSchema
 }
 
-// UnserializeScope unserializes a scope definition from raw data.
+// linkReceived runs the link step of a schema that was built from a description. Linking panics on an
+// unknown reference, a one-of member that contradicts the inlining flag, a missing or mismatched root and
+// an undecodable default, because for schemas written in Go those are programming errors; a description
+// received from elsewhere is data, so here they are turned into an error.
+func linkReceived(link func()) (err error) {
+	defer func() {
+		if r := recover(); r != nil {
+			if e, ok := r.(error); ok {
+				err = fmt.Errorf("invalid schema (%w)", e)
+			} else {
+				err = fmt.Errorf("invalid schema (%v)", r)
+			}
+		}
+	}()
+	link()
+	return nil
+}
+
+// UnserializeScope unserializes a scope definition from raw data. The references of the scope's own
+// namespace are linked; references to other namespaces are left to whoever embeds the scope.
 func UnserializeScope(data any) (*ScopeSchema, error) {
 	s, err := scopeScopeSchema.Unserialize(data)
 	if err != nil {
 		return nil, err
 	}
 	result := s.(*ScopeSchema)
-	// The references of the scope's own namespace are linked; references to other namespaces are left to whoever
-	// embeds the scope.
-	result.ApplySelf()
+	if err := linkReceived(result.ApplySelf); err != nil {
+		return nil, err
+	}
 	return result, nil
 }
 
@@ -1332,6 +1354,11 @@ func UnserializeSchema(data any) (*SchemaSchema, error) {
 		return nil, err
 	}
 	result := s.(*SchemaSchema)
-	result.applyNamespace()
+	if err := linkReceived(result.applyNamespace); err != nil {
+		return nil, err
+	}
+	if err := result.validateReferences(); err != nil {
+		return nil, err
+	}
 	return result, nil
 }
